@@ -1,110 +1,150 @@
 (* C14 — Bit and integer utilities equal their mathematical definition for all values.
-   Property theorems only: each is closed by [exact] of a lemma proved in Proofs*.v, followed by
-   Print Assumptions.  [WT t] = t is one of the eight integer types (width 8/16/32/64, signed or
-   unsigned); [in_ty t x] = x is a value of t.  [Ok v] in a conclusion also says that the
-   computation meets no undefined behaviour (no signed overflow, no bad shift), no contract
-   failure and does not run out of fuel. *)
+   Property theorems only: each is closed by [exact] of lemmas proved in Proofs*.v, followed by
+   Print Assumptions.  Related functions are stated together as one conjunctive theorem (every
+   Print Assumptions costs ~1 s per run of ./check).
+   [W w] = w is one of the widths 8/16/32/64; [WT t] = t is one of the eight integer types (such a
+   width, signed or unsigned); [in_ty t x] = x is a value of t.  [Ok v] in a conclusion also says
+   that the computation meets no undefined behaviour (no signed overflow, no bad shift, no division
+   by zero), no contract failure and does not run out of fuel.  Model functions ([_m]) mirror the
+   C++ code; spec functions ([_spec]) are the mathematical definitions of Spec.v. *)
 From Tetl Require Import Lib.Base C14.Spec C14.Model C14.Arith
-  C14.ProofsSat C14.ProofsCmp C14.ProofsMid C14.ProofsNum C14.ProofsGcd.
+  C14.ProofsSat C14.ProofsCmp C14.ProofsMid C14.ProofsNum C14.ProofsGcd C14.ProofsRot C14.ProofsBit C14.ProofsCount C14.ProofsPop C14.ProofsSwap C14.NonVac.
 Local Open Scope Z_scope.
 
-(** saturation arithmetic *)
-Theorem C14_add_sat : forall t, WT t -> forall x y, in_ty t x = true -> in_ty t y = true ->
-  add_sat_m t x y = Ok (add_sat_spec t x y).
-Proof. exact add_sat_ok. Qed.
-Print Assumptions C14_add_sat.
+(** saturation arithmetic: add_sat (builtin path and portable fallback), div_sat, saturate_cast
+    for all 64 (To, From) pairs: the exact result clamped to the range of the type *)
+Theorem C14_saturation :
+  (forall t, WT t -> forall x y, in_ty t x = true -> in_ty t y = true ->
+     add_sat_m t x y = Ok (add_sat_spec t x y) /\ add_sat_fallback_m t x y = Ok (add_sat_spec t x y))
+  /\ (forall t, WT t -> forall x y, in_ty t x = true -> in_ty t y = true -> y <> 0 ->
+     div_sat_m t x y = Ok (div_sat_spec t x y))
+  /\ (forall t x, div_sat_m t x 0 = Contract)
+  /\ (forall to from x, WT to -> WT from -> in_ty from x = true ->
+     saturate_cast_m to from x = Ok (saturate_cast_spec to x)).
+Proof.
+  exact (conj (fun t HT x y Hx Hy => conj (add_sat_ok t HT x y Hx Hy) (add_sat_fallback_ok t HT x y Hx Hy))
+        (conj div_sat_ok (conj div_sat_contract saturate_cast_ok))).
+Qed.
+Print Assumptions C14_saturation.
 
-Theorem C14_add_sat_fallback : forall t, WT t -> forall x y, in_ty t x = true -> in_ty t y = true ->
-  add_sat_fallback_m t x y = Ok (add_sat_spec t x y).
-Proof. exact add_sat_fallback_ok. Qed.
-Print Assumptions C14_add_sat_fallback.
-
-Theorem C14_div_sat : forall t, WT t -> forall x y, in_ty t x = true -> in_ty t y = true -> y <> 0 ->
-  div_sat_m t x y = Ok (div_sat_spec t x y).
-Proof. exact div_sat_ok. Qed.
-Print Assumptions C14_div_sat.
-
-Theorem C14_saturate_cast : forall to from x, WT to -> WT from -> in_ty from x = true ->
-  saturate_cast_m to from x = Ok (saturate_cast_spec to x).
-Proof. exact saturate_cast_ok. Qed.
-Print Assumptions C14_saturate_cast.
-
-(** safe comparisons: the mathematical comparison, for all 64 type pairs *)
-Theorem C14_cmp_equal : forall tt tu t u, WT tt -> WT tu -> in_ty tt t = true -> in_ty tu u = true ->
-  cmp_equal_m tt tu t u = cmp_equal_spec t u.
-Proof. exact cmp_equal_ok. Qed.
-Print Assumptions C14_cmp_equal.
-
-Theorem C14_cmp_not_equal : forall tt tu t u, WT tt -> WT tu -> in_ty tt t = true -> in_ty tu u = true ->
-  cmp_not_equal_m tt tu t u = cmp_not_equal_spec t u.
-Proof. exact cmp_not_equal_ok. Qed.
-Print Assumptions C14_cmp_not_equal.
-
-Theorem C14_cmp_less : forall tt tu t u, WT tt -> WT tu -> in_ty tt t = true -> in_ty tu u = true ->
-  cmp_less_m tt tu t u = cmp_less_spec t u.
-Proof. exact cmp_less_ok. Qed.
-Print Assumptions C14_cmp_less.
-
-Theorem C14_cmp_greater : forall tt tu t u, WT tt -> WT tu -> in_ty tt t = true -> in_ty tu u = true ->
-  cmp_greater_m tt tu t u = cmp_greater_spec t u.
-Proof. exact cmp_greater_ok. Qed.
-Print Assumptions C14_cmp_greater.
-
-Theorem C14_cmp_less_equal : forall tt tu t u, WT tt -> WT tu -> in_ty tt t = true -> in_ty tu u = true ->
-  cmp_less_equal_m tt tu t u = cmp_less_equal_spec t u.
-Proof. exact cmp_less_equal_ok. Qed.
-Print Assumptions C14_cmp_less_equal.
-
-Theorem C14_cmp_greater_equal : forall tt tu t u, WT tt -> WT tu -> in_ty tt t = true -> in_ty tu u = true ->
-  cmp_greater_equal_m tt tu t u = cmp_greater_equal_spec t u.
-Proof. exact cmp_greater_equal_ok. Qed.
-Print Assumptions C14_cmp_greater_equal.
+(** safe comparisons and in_range: the mathematical comparison, for all 64 type pairs *)
+Theorem C14_cmp : forall tt tu t u, WT tt -> WT tu -> in_ty tt t = true -> in_ty tu u = true ->
+  cmp_equal_m tt tu t u = cmp_equal_spec t u
+  /\ cmp_not_equal_m tt tu t u = cmp_not_equal_spec t u
+  /\ cmp_less_m tt tu t u = cmp_less_spec t u
+  /\ cmp_greater_m tt tu t u = cmp_greater_spec t u
+  /\ cmp_less_equal_m tt tu t u = cmp_less_equal_spec t u
+  /\ cmp_greater_equal_m tt tu t u = cmp_greater_equal_spec t u.
+Proof.
+  exact (fun tt tu t u H1 H2 H3 H4 =>
+    conj (cmp_equal_ok tt tu t u H1 H2 H3 H4) (conj (cmp_not_equal_ok tt tu t u H1 H2 H3 H4)
+    (conj (cmp_less_ok tt tu t u H1 H2 H3 H4) (conj (cmp_greater_ok tt tu t u H1 H2 H3 H4)
+    (conj (cmp_less_equal_ok tt tu t u H1 H2 H3 H4) (cmp_greater_equal_ok tt tu t u H1 H2 H3 H4)))))).
+Qed.
+Print Assumptions C14_cmp.
 
 Theorem C14_in_range : forall r tt t, WT r -> WT tt -> in_ty tt t = true ->
   in_range_m r tt t = in_range_spec r t.
 Proof. exact in_range_ok. Qed.
 Print Assumptions C14_in_range.
 
-(** midpoint, gcd, lcm, abs *)
+(** midpoint: a + (b - a) / 2 rounded towards a, for every pair of values incl. the limits with
+    opposite signs *)
 Theorem C14_midpoint : forall t, WT t -> forall a b, in_ty t a = true -> in_ty t b = true ->
   midpoint_m t a b = Ok (midpoint_spec a b).
 Proof. exact midpoint_ok. Qed.
 Print Assumptions C14_midpoint.
 
-Theorem C14_gcd : forall tm tn m n, WT tm -> WT tn -> in_ty tm m = true -> in_ty tn n = true ->
-  in_ty (common_type tm tn) (Z.gcd m n) = true ->
-  gcd_m tm tn m n = Ok (gcd_spec m n).
-Proof. exact gcd_ok. Qed.
-Print Assumptions C14_gcd.
+(** gcd, lcm for all 64 (M, N) pairs: the non-negative gcd / lcm of |m| and |n| whenever it is a value
+    of the common type (the standard's domain) *)
+Theorem C14_gcd_lcm : forall tm tn m n, WT tm -> WT tn -> in_ty tm m = true -> in_ty tn n = true ->
+  (in_ty (common_type tm tn) (Z.gcd m n) = true -> gcd_m tm tn m n = Ok (gcd_spec m n))
+  /\ (in_ty (common_type tm tn) (Z.lcm m n) = true -> lcm_m tm tn m n = Ok (lcm_spec m n)).
+Proof. exact (fun tm tn m n H1 H2 H3 H4 => conj (gcd_ok tm tn m n H1 H2 H3 H4) (lcm_ok tm tn m n H1 H2 H3 H4)). Qed.
+Print Assumptions C14_gcd_lcm.
 
-Theorem C14_lcm : forall tm tn m n, WT tm -> WT tn -> in_ty tm m = true -> in_ty tn n = true ->
-  in_ty (common_type tm tn) (Z.lcm m n) = true ->
-  lcm_m tm tn m n = Ok (lcm_spec m n).
-Proof. exact lcm_ok. Qed.
-Print Assumptions C14_lcm.
+(** abs, idiv, ipow, ipow<2>, ilog2: exact integer arithmetic whenever the result is representable *)
+Theorem C14_abs_idiv : forall t, WT t ->
+  (forall x, in_ty t x = true -> in_ty t (Z.abs x) = true -> abs_m t x = Ok (abs_spec x))
+  /\ (forall x y, in_ty t x = true -> in_ty t y = true -> y <> 0 -> in_ty t (Z.quot x y) = true ->
+      idiv_m t x y = Ok (idiv_spec x y)).
+Proof. exact (fun t HT => conj (abs_ok t HT) (idiv_ok t HT)). Qed.
+Print Assumptions C14_abs_idiv.
 
-Theorem C14_abs : forall t, WT t -> forall x, in_ty t x = true -> in_ty t (Z.abs x) = true ->
-  abs_m t x = Ok (abs_spec x).
-Proof. exact abs_ok. Qed.
-Print Assumptions C14_abs.
+Theorem C14_ipow_ilog2 : forall t, WT t ->
+  (forall b e, in_ty t b = true -> in_ty t e = true -> 0 <= e -> in_ty t (b ^ e) = true ->
+      ipow_m t b e = Ok (ipow_spec b e))
+  /\ (forall e, 0 <= e -> in_ty t (2 ^ e) = true -> ipow2_m t e = Ok (ipow_spec 2 e))
+  /\ (forall x, 1 <= x -> in_ty t x = true -> ilog2_m t x = Ok (ilog2_spec x)).
+Proof. exact (fun t HT => conj (ipow_ok t HT) (conj (ipow2_ok t HT) (ilog2_ok t HT))). Qed.
+Print Assumptions C14_ipow_ilog2.
 
-(** idiv, ipow, ilog2 *)
-Theorem C14_idiv : forall t, WT t -> forall x y, in_ty t x = true -> in_ty t y = true -> y <> 0 ->
-  in_ty t (Z.quot x y) = true -> idiv_m t x y = Ok (idiv_spec x y).
-Proof. exact idiv_ok. Qed.
-Print Assumptions C14_idiv.
+(** rotl / rotr: every width, every value, EVERY count s (any integer, hence any int: negative, zero,
+    multiples of the width, INT_MIN): the count is taken modulo the width, no shift is out of range;
+    and the specification read bit by bit: bit i of rotl x s is bit (i - s) mod w of x *)
+Theorem C14_rot : forall w, W w -> forall x s, 0 <= x < 2 ^ w ->
+  rotl_m w x s = Ok (rotl_spec w x s) /\ rotr_m w x s = Ok (rotr_spec w x s)
+  /\ (forall i, 0 <= i < w -> Z.testbit (rotl_spec w x s) i = Z.testbit x ((i - s) mod w)).
+Proof. exact rot_all. Qed.
+Print Assumptions C14_rot.
 
-Theorem C14_ipow : forall t, WT t -> forall b e, in_ty t b = true -> in_ty t e = true -> 0 <= e ->
-  in_ty t (b ^ e) = true -> ipow_m t b e = Ok (ipow_spec b e).
-Proof. exact ipow_ok. Qed.
-Print Assumptions C14_ipow.
+(** single-bit updates: every width, every word, every position; the precondition pos < digits is checked
+    exactly (contract failure for every other position, no shift out of range) *)
+Theorem C14_single_bit : forall w, W w -> forall word pos, 0 <= word < 2 ^ w -> 0 <= pos ->
+  (pos < w ->
+     set_bit_m w word pos = Ok (set_bit_spec word pos)
+     /\ reset_bit_m w word pos = Ok (reset_bit_spec word pos)
+     /\ flip_bit_m w word pos = Ok (flip_bit_spec word pos)
+     /\ test_bit_m w word pos = Ok (test_bit_spec word pos)
+     /\ (forall v, assign_bit_m w word pos v = Ok (assign_bit_spec word pos v)))
+  /\ (w <= pos ->
+     set_bit_m w word pos = Contract /\ reset_bit_m w word pos = Contract /\ flip_bit_m w word pos = Contract
+     /\ test_bit_m w word pos = Contract /\ (forall v, assign_bit_m w word pos v = Contract)).
+Proof. exact single_bit_all. Qed.
+Print Assumptions C14_single_bit.
 
-Theorem C14_ipow2 : forall t, WT t -> forall e, 0 <= e -> in_ty t (2 ^ e) = true ->
-  ipow2_m t e = Ok (ipow_spec 2 e).
-Proof. exact ipow2_ok. Qed.
-Print Assumptions C14_ipow2.
+(** popcount (run-time builtin by its documented meaning; the portable "val &= val - 1" loop by induction)
+    and has_single_bit: every width, every value *)
+Theorem C14_popcount : forall w, W w -> forall x, 0 <= x < 2 ^ w ->
+  popcount_m w x = Ok (popcount_spec w x) /\ popcount_fallback_m w x = Ok (popcount_spec w x)
+  /\ has_single_bit_m w x = Ok (has_single_bit_spec x).
+Proof. exact pop_all. Qed.
+Print Assumptions C14_popcount.
 
-Theorem C14_ilog2 : forall t, WT t -> forall x, 1 <= x -> in_ty t x = true ->
-  ilog2_m t x = Ok (ilog2_spec x).
-Proof. exact ilog2_ok. Qed.
-Print Assumptions C14_ilog2.
+(** countl_zero/one (shift-left loops), countr_zero/one (test_bit loops), bit_width, bit_floor and bit_ceil
+    (both promotion branches; on the standard's domain x <= 2^(w-1)): every width, every value *)
+Theorem C14_count : forall w, W w -> forall x, 0 <= x < 2 ^ w ->
+  countl_zero_m w x = Ok (countl_zero_spec w x) /\ countl_one_m w x = Ok (countl_one_spec w x)
+  /\ countr_zero_m w x = Ok (countr_zero_spec w x) /\ countr_one_m w x = Ok (countr_one_spec w x)
+  /\ bit_width_m w x = Ok (bit_width_spec x) /\ bit_floor_m w x = Ok (bit_floor_spec x)
+  /\ (bit_ceil_dom w x = true -> bit_ceil_m w x = Ok (bit_ceil_spec x)).
+Proof. exact count_all. Qed.
+Print Assumptions C14_count.
+
+(** byteswap for the eight types (run-time path: __builtin_bswapN by its documented meaning), the portable
+    shift-and-mask fallbacks for 16/32/64 bits, and hton/ntoh for 8/16/32 bits: the bytes in reverse order *)
+Theorem C14_byteswap :
+  (forall t x, WT t -> in_ty t x = true -> byteswap_m t x = Ok (byteswap_spec t x))
+  /\ (forall w v, w = 16 \/ w = 32 \/ w = 64 -> 0 <= v < 2 ^ w ->
+        byteswap_fallback_m w v = Ok (byteswap_u_spec (Z.to_nat (w / 8)) v))
+  /\ (forall w v, w = 8 \/ w = 16 \/ w = 32 -> 0 <= v < 2 ^ w ->
+        hton_m w v = Ok (hton_spec w v) /\ ntoh_m w v = Ok (hton_spec w v)).
+Proof. exact swap_all. Qed.
+Print Assumptions C14_byteswap.
+
+(** the hypotheses above are satisfiable at the corners the property is about *)
+Example C14_nonvacuous :
+  (WT i8 /\ WT u8 /\ WT i16 /\ WT u16 /\ WT i32 /\ WT u32 /\ WT i64 /\ WT u64)
+  /\ in_ty i8 (-128) = true /\ in_ty i64 (-9223372036854775808) = true /\ in_ty u64 18446744073709551615 = true
+  /\ midpoint_m i64 (-9223372036854775808) 9223372036854775807 = Ok (-1)
+  /\ midpoint_m i64 9223372036854775807 (-9223372036854775808) = Ok 0
+  /\ add_sat_m i32 2147483647 1 = Ok 2147483647
+  /\ add_sat_fallback_m i64 (-9223372036854775808) (-1) = Ok (-9223372036854775808)
+  /\ div_sat_m i8 (-128) (-1) = Ok 127
+  /\ saturate_cast_m i8 u64 18446744073709551615 = Ok 127
+  /\ cmp_less_m i32 u32 (-1) 4294967295 = true
+  /\ gcd_m i8 i64 (-128) (-9223372036854775808) = Ok 128
+  /\ lcm_m i32 i32 196608 131072 = Ok 393216
+  /\ rotl_m 8 129 (-2147483648) = Ok 129
+  /\ rotl_m 64 9223372036854775809 (-1) = Ok 13835058055282163712.
+Proof. exact (conj WT_all nonvac_values). Qed.
